@@ -1086,8 +1086,12 @@ impl<'a, I, A> Strategies<'a, I, A> {
                 infos.iter().map(|info| info.num_actions()),
             ) {
                 let total: f64 = strat.iter().filter(|p| p > &&thresh).sum();
-                for p in strat.iter_mut() {
-                    *p = if *p > thresh { *p / total } else { 0.0 }
+                // if no action survives the threshold leave the infoset as it is, otherwise it
+                // would become all zeros (or nan) instead of a probability distribution
+                if total > 0.0 {
+                    for p in strat.iter_mut() {
+                        *p = if *p > thresh { *p / total } else { 0.0 }
+                    }
                 }
             }
         }
